@@ -197,7 +197,11 @@ class CoderState(object):
         self.back_reference_boundary = len(self.decoded_descriptors)
 
     def recall_bitmap(self):
-        self.next_bitmapped_descriptor = functools.partial(next, iter(self.bitmapped_descriptors))
+        if self.bitmap is None:
+            raise PyBufrKitError('No bitmap is defined for reuse')
+        # The bitmap to recall is the one defined for reuse (236000), which is not
+        # necessarily the bitmap that was built last
+        self.build_bitmapped_descriptors(self.bitmap)
         return self.bitmap
 
     def cancel_bitmap(self):
